@@ -59,6 +59,7 @@ pub fn storm_history() -> impl Strategy<Value = HistoryCase> {
                 cfg: Cfg { pagesize: 1024, num_pages: 32, strict, populate: false },
                 fresh_handles: fresh,
                 txs,
+                dance: 0,
             }
         })
 }
@@ -117,7 +118,7 @@ pub fn mixed_history() -> impl Strategy<Value = HistoryCase> {
                 ops.extend(extra);
                 txs.push(TxSpec { kind: TxKind::Commit, ops });
             }
-            HistoryCase { cfg: Cfg::default(), fresh_handles: false, txs }
+            HistoryCase { cfg: Cfg::default(), fresh_handles: false, txs, dance: 0 }
         })
 }
 
@@ -141,7 +142,7 @@ pub fn rollback_history() -> impl Strategy<Value = HistoryCase> {
         .prop_map(|(cfg, fresh_handles, first, rest)| {
             let mut txs = vec![first];
             txs.extend(rest);
-            HistoryCase { cfg, fresh_handles, txs }
+            HistoryCase { cfg, fresh_handles, txs, dance: 0 }
         })
 }
 
@@ -174,7 +175,7 @@ pub fn single_tx_history(max_ops: usize) -> impl Strategy<Value = HistoryCase> {
                 _ => start_txs(ShapeKind::Mixed, k.min(24)),
             };
             txs.push(TxSpec { kind: if commit { TxKind::Commit } else { TxKind::Rollback }, ops });
-            HistoryCase { cfg: Cfg::default(), fresh_handles, txs }
+            HistoryCase { cfg: Cfg::default(), fresh_handles, txs, dance: 0 }
         })
 }
 
